@@ -1,6 +1,7 @@
 import Pandora.Drv.Util
 import Pandora.Model.C14Hdr
 import Pandora.Model.C14Fin
+import Pandora.Model.C14Mid
 import Pandora.Spec.C14
 
 namespace Pandora.Drv.C14
@@ -16,7 +17,7 @@ def parseFmt : String → Option Fmt
 def parseRun (s : String) : Spec.C14.RunClass :=
   match s with
   | "nil" => .nil | "canceled" => .canceled | "limit" => .limit | "passes" => .passes
-  | "noammo" => .noammo | "noreturn" => .noreturn | "construct" => .construct
+  | "noammo" => .noammo | "noreturn" => .noreturn | "construct" => .construct | "canceledw" => .canceledW
   | _ => if s.startsWith "fatal" then .fatal else .other
 
 def parseEnd : String → Option Spec.C14.EndClass
@@ -165,6 +166,25 @@ def parseSide (kv : List (String × String)) (p : String) : Option Spec.C14.Side
          run := rt.1, end_ := ← parseEnd (getS kv (p ++ ".end")), runClose := rt.2,
          closed := (getS kv (p ++ ".closed") "-").toNat? }
 
+/-- round 6, `rc=K` (the context is cancelled inside the first Scan call of the run, `Model.C14.runMid` with `j = 0`):
+one side of the model.  Which way the race of the streaming `select` went is read off the implementation's observation
+(`sendWins` = the streaming side delivered something); the decoders hand the cancelled context on bare and loadAmmo
+normalises (the facts `Bridge.C14.scan_ctx_source` / `loadFail_bare_source` tie to the source). -/
+def midSide (l : Line) (preload sendWins : Bool) : Spec.C14.Side :=
+  if !constructs l.kind l.tags.length then constructFailed else
+  match runMid l.kind preload (mkFile l.tags) (isChosen l.cases) l.b .bare true ⟨0, false, sendWins⟩ (l.tags.length + 3) with
+  | none => { seq := [], cut := false, run := .noreturn, end_ := .spinning }
+  | some (out, e) =>
+    { seq := out.map (·.id), cut := false,
+      run := if e.run == .canceled && !e.recognised then .canceledW else classOf e.run,
+      end_ := .closed, runClose := false, closed := if l.hasFile then some 1 else none }
+
+def midObs (l : Line) (sendWins : Bool) : String :=
+  let s := midSide l false sendWins
+  let p := midSide l true sendWins
+  let eh := ehdrOf l.kind l.src
+  s!"{showSide "s" s "spinning"} {showSide "p" p "spinning"} tagsok=1 reqok=1 s.hd={Spec.C14.renderHd eh s.seq} p.hd={Spec.C14.renderHd eh p.seq}"
+
 def handle : Handler := fun input impl =>
   match parseLine (parseKV input) with
   | none => ("-", "fail:driver:unparsable input")
@@ -178,6 +198,19 @@ def handle : Handler := fun input impl =>
       -- the cell is skipped.
       let m := s!"{showSide "s" (modelSidePre l.kind false l.tags l.cases l.b l.hasFile l.closeFails) "spinning"} {showSide "p" (modelSidePre l.kind true l.tags l.cases l.b l.hasFile l.closeFails) "spinning"} tagsok=1 reqok=1 s.hd=- p.hd=-"
       if m == impl then (m, "ok") else ("-", "skip:precancelled-context-differs-from-model")
+    else
+    if getS (parseKV input) "rc" != "" then
+      -- round 6: the cancellation lands inside the first Scan call
+      if Spec.C14.noMatch l.cell then ("-", "skip:midscan-cancel-with-nothing-chosen") else
+      if !l.hdrInModel then ("-", "skip:header-declarations-outside-the-model") else
+      if (getS ikv "s.run").startsWith "infra" || (getS ikv "p.run").startsWith "infra" then
+        ("-", "skip:harness-child-could-not-run") else
+      match parseSide ikv "s", parseSide ikv "p" with
+      | some s, some p =>
+        (midObs l (!s.seq.isEmpty), Spec.C14.judgeMid l.cell (ehdrOf l.kind l.src)
+          { base := { s, p, tagsOk := getS ikv "tagsok" == "1" }, reqOk := getS ikv "reqok" == "1",
+            shd := getS ikv "s.hd" "-", phd := getS ikv "p.hd" "-" })
+      | _, _ => (midObs l false, s!"fail:crash:{impl.take 160}")
     else
     if l.cap == 0 then ("-", "skip:no-cap") else
     if !sourceAccepted l.kind l.nUris l.hasFile then
